@@ -1,3 +1,4 @@
+import HttpcoreModel.Props.Life
 import HttpcoreModel.Pool
 import HttpcoreModel.Generated
 /-!
@@ -317,5 +318,44 @@ theorem close_reasons_counterexample_107 :
       [Conn.mk 0 0 false false false false, Conn.mk 1 0 false false false false,
        Conn.mk 2 1 false false true true] []).2
       = [(Conn.mk 2 1 false false true true, .surplus 1)] := by decide
+
+end Httpcore.C09
+
+namespace Httpcore.C09
+open Httpcore.Pool Httpcore.ConnLife Httpcore.LifeProps
+
+/-- **in_use_survives_housekeeping** (C09 with C12) - composition of the pool-pass theorem with the life-cycle theorem: an HTTP/2
+connection on which a request has been accepted and not finished (after *any* history of life-cycle operations, at *any* clock
+reading), and which the pool holds for a request in its queue, is not among the connections the house-keeping loop closes -
+whatever the rest of the pool looks like.  (`close_reasons` alone leaves the door "expired" open; `h2_in_use_never_expires`
+closes it.) -/
+theorem in_use_survives_housekeeping (cfg : Cfg) (hfix : cfg.countIdleOnly = true) (res : List Nat) (s : State)
+    (ka : Option Nat) (ops : List Op2) (now id origin : Nat)
+    (hu : (run2 (init2 ka) ops).inUse) (hc : (run2 (init2 ka) ops).c.st ≠ .closed)
+    (hres : isReserved res (view2 now id origin (run2 (init2 ka) ops).c) = true) :
+    ∀ e ∈ (cleanup cfg res s.conns s.conns []).2, e.1 ≠ view2 now id origin (run2 (init2 ka) ops).c := by
+  intro e he heq
+  obtain ⟨h1, h2, _⟩ := h2_in_use_view ka ops now id origin hu hc
+  rcases close_reasons cfg hfix res s e he with ⟨_, h⟩ | ⟨k, _, h, _, _⟩ | ⟨_, _, h⟩
+  · rw [heq, h1] at h; cases h
+  · rw [heq, h2] at h; cases h
+  · rw [heq, hres] at h; cases h
+
+/-- ... and it is not evicted to make room either (only idle connections are) -/
+theorem in_use_not_evicted (cfg : Cfg) (s : State) (r : Req) (ka : Option Nat) (ops : List Op2) (now id origin : Nat)
+    (hu : (run2 (init2 ka) ops).inUse) (hc : (run2 (init2 ka) ops).c.st ≠ .closed) :
+    ∀ i, (assignOne cfg s r).1.closing = s.closing ++ [(i, .room)] → i ≠ view2 now id origin (run2 (init2 ka) ops).c := by
+  intro i hi heq
+  obtain ⟨_, h2, _⟩ := h2_in_use_view ka ops now id origin hu hc
+  rcases eviction_reason cfg s r with h | ⟨j, hj, _, hidle, _⟩
+  · rw [h] at hi
+    have := congrArg List.length hi
+    simp at this
+  · rw [hj] at hi
+    have : j = i := by
+      have := List.append_cancel_left hi
+      simpa using this
+    subst this
+    rw [heq, h2] at hidle; cases hidle
 
 end Httpcore.C09
